@@ -35,4 +35,31 @@ CHECKS = {
              "thorough": {"checks": 500, "shards": 16, "timeout": 3600, "shrink": "60s"}},
         ],
     },
+    "C07": {
+        "level": "exploration",
+        "rule": "rapid-generated histories (1-40 operations: block / filter batch appends of any size incl. empty, single and multi-header rollbacks incl. to and past genesis, block-manager style two-store rollbacks, re-append of rolled-back headers, reopen, appends whose index commit is made to fail) applied to the real stores and to two in-memory lists; after every operation every read method of both stores is compared with the lists. Non-trivial = the history contains a rollback followed by an append, or a reopen after a mutation, or an injected write fault; distinct = distinct case JSON",
+        "assumptions": [
+            "appends respect the documented precondition (heights continue the tip; filter headers never beyond the block tip); block headers below the filter tip are only rolled back after the filter headers (as the block manager does)",
+            "database write errors are injected by a walletdb wrapper that rolls the transaction back; file-level write errors are not injected by this unit",
+            "locators are checked structurally (start hash, strictly descending heights of hashes of the list, dense for ten steps, ending at genesis), not against one particular thinning schedule",
+        ],
+        "units": [
+            {"name": "store", "module": "harness", "pkg": "./checks/hdrstore", "test": "TestC07", "tags": "verif",
+             "quick": {"checks": 60, "shards": 16, "timeout": 600},
+             "thorough": {"checks": 1200, "shards": 16, "timeout": 3600, "shrink": "60s"}},
+        ],
+    },
+    "C08": {
+        "level": "fault_enumeration",
+        "rule": "rapid-generated store histories (1-10 operations) run on a database wrapper whose hooks copy the three durable files right before and right after EVERY index commit of every primitive store call (this observes the actual order of file and index mutations), plus, for every file growth seen at a pre-commit point, synthesized torn lengths (1 byte, mid-entry, k whole entries, k entries plus part, all but one byte). Every crash image is restarted: both stores must open, equal the list model before or after the interrupted step, keep filter tip <= block tip, and accept and read back further appends. evaluations = histories; counters.crash_images = images restarted. Non-trivial = history with at least one crash point strictly inside an operation; distinct = distinct case JSON",
+        "assumptions": [
+            "crash model = process death: writes reach the page cache in program order; power loss / fsync reordering is out of scope",
+            "bbolt commits are atomic",
+        ],
+        "units": [
+            {"name": "store", "module": "harness", "pkg": "./checks/hdrstore", "test": "TestC08", "tags": "verif",
+             "quick": {"checks": 8, "shards": 16, "timeout": 900},
+             "thorough": {"checks": 120, "shards": 16, "timeout": 5400, "shrink": "120s"}},
+        ],
+    },
 }
